@@ -9,6 +9,7 @@ package main
 // loads of fields of a struct returned by a repo function are resolved through the stores to that field inside it.
 
 import (
+	"go/ast"
 	"go/token"
 	"go/types"
 	"sort"
@@ -222,4 +223,86 @@ func (oc *originCtx) callResult(c *ssa.Call, idx int, set map[string]bool, seen 
 		}
 	}
 	oc.mapBack(f, c, inner, set, seen, depth)
+}
+
+// originsUp: like origins, but a parameter of an unexported function is replaced by where its arguments come from at
+// every static call site (two levels up), so that a helper that is handed a window of a field still counts as working
+// on that field.
+func (oc *originCtx) originsUp(v ssa.Value) []string {
+	return oc.originsUpDepth(v, 2)
+}
+
+func (oc *originCtx) originsUpDepth(v ssa.Value, depth int) []string {
+	set := map[string]bool{}
+	var resolve func(v ssa.Value, depth int)
+	resolve = func(v ssa.Value, depth int) {
+		for _, o := range oc.origins(v) {
+			if !strings.HasPrefix(o, "param:") || depth <= 0 {
+				set[o] = true
+				continue
+			}
+			// find the parameter among the values feeding v
+			var prm *ssa.Parameter
+			seen := map[ssa.Value]bool{}
+			var find func(x ssa.Value, d int)
+			find = func(x ssa.Value, d int) {
+				if x == nil || seen[x] || d > 8 || prm != nil {
+					return
+				}
+				seen[x] = true
+				switch y := x.(type) {
+				case *ssa.Parameter:
+					if "param:"+funcName(y.Parent())+"#"+y.Name() == o {
+						prm = y
+					}
+				case *ssa.Slice:
+					find(y.X, d+1)
+				case *ssa.ChangeType:
+					find(y.X, d+1)
+				case *ssa.MakeInterface:
+					find(y.X, d+1)
+				case *ssa.Phi:
+					for _, e := range y.Edges {
+						find(e, d+1)
+					}
+				case *ssa.UnOp:
+					find(y.X, d+1)
+				case *ssa.Alloc:
+					for _, ref := range *y.Referrers() {
+						if st, ok := ref.(*ssa.Store); ok && st.Addr == ssa.Value(y) {
+							find(st.Val, d+1)
+						}
+					}
+				}
+			}
+			find(v, 0)
+			if prm == nil || ast.IsExported(prm.Parent().Name()) {
+				set[o] = true
+				continue
+			}
+			sites := oc.p.staticCallers(prm.Parent())
+			if len(sites) == 0 {
+				set[o] = true
+				continue
+			}
+			idx := -1
+			for i, q := range prm.Parent().Params {
+				if q == prm {
+					idx = i
+				}
+			}
+			for _, s := range sites {
+				if idx >= 0 && idx < len(s.Common().Args) {
+					resolve(s.Common().Args[idx], depth-1)
+				}
+			}
+		}
+	}
+	resolve(v, depth)
+	var out []string
+	for k := range set {
+		out = append(out, k)
+	}
+	sort.Strings(out)
+	return out
 }
